@@ -185,80 +185,3 @@ func c03Duration(n int) {
 	verifrt.Assert("c03d.delivered-total", delivered == 1)
 	verifrt.Reach("c03.duration.end")
 }
-
-// VerifC03Scope: the same contract observed through the public path - a histogram obtained
-// from a scope (explicit spec of 0..2 symbolic bounds, an explicitly empty spec included),
-// recorded through RecordValue / RecordDuration / a stopwatch, delivered by a report pass.
-func VerifC03Scope() {
-	rec := &vReporter{}
-	root := newRootScope(ScopeOptions{Reporter: rec, OmitCardinalityMetrics: true, registryShardCount: 1}, 0)
-	n := verifrt.Choose("n", 3)
-	durations := verifrt.Choose("durations", 2) == 1
-	var spec Buckets
-	vb := make(ValueBuckets, n)
-	db := make(DurationBuckets, n)
-	for i := 0; i < n; i++ {
-		vb[i] = verifrt.Float64("bound")
-		verifrt.Assume(finite(vb[i]))
-		db[i] = time.Duration(verifrt.Int64("dbound"))
-		if i > 0 {
-			verifrt.Assume(verifrt.And(vb[i-1] < vb[i], db[i-1] < db[i]))
-		}
-	}
-	if durations {
-		spec = db
-	} else {
-		spec = vb
-	}
-	h := root.Histogram("h", spec)
-	x := verifrt.Float64("sample")
-	verifrt.Assume(finite(x))
-	d := time.Duration(verifrt.Int64("dsample"))
-	how := verifrt.Choose("how", 3)
-	switch how {
-	case 0:
-		h.RecordValue(x)
-	case 1:
-		h.RecordDuration(d)
-	case 2:
-		sw := h.Start()
-		sw.Stop()
-	}
-	root.reportRegistry()
-	total := int64(0)
-	for _, c := range rec.calls {
-		verifrt.Assert("c03.scope.delivered-under-its-name", c.name == "h")
-		total += c.i
-		if c.i == 0 {
-			continue
-		}
-		switch c.kind {
-		case "hv":
-			verifrt.Assert("c03.scope.value-histogram-reports-value-buckets", !durations)
-			verifrt.Assert("c03.scope.sample-inside-its-bucket", verifrt.And(verifrt.Or(c.lo < x, fbits(c.lo) == fbits(-math.MaxFloat64)), x <= c.hi))
-			inSpec := fbits(c.hi) == fbits(math.MaxFloat64)
-			for i := 0; i < n; i++ {
-				inSpec = verifrt.Or(inSpec, fbits(c.hi) == fbits(vb[i]))
-			}
-			verifrt.Assert("c03.scope.upper-bound-is-from-the-spec", inSpec)
-		case "hd":
-			verifrt.Assert("c03.scope.duration-histogram-reports-duration-buckets", durations)
-			if how == 1 {
-				verifrt.Assert("c03.scope.sample-inside-its-bucket", verifrt.And(verifrt.Or(c.dlo < d, c.dlo == time.Duration(math.MinInt64)), d <= c.dhi))
-			}
-			inSpec := c.dhi == time.Duration(math.MaxInt64)
-			for i := 0; i < n; i++ {
-				inSpec = verifrt.Or(inSpec, c.dhi == db[i])
-			}
-			verifrt.Assert("c03.scope.upper-bound-is-from-the-spec", inSpec)
-		default:
-			verifrt.Assert("c03.scope.only-histogram-reports", false)
-		}
-	}
-	want := int64(0)
-	if (how == 0 && !durations) || (how != 0 && durations) {
-		want = 1 // the other kind of sample is ignored
-	}
-	verifrt.Assert("c03.scope.conservation", total == want)
-	verifrt.Reach("c03.scope.end")
-}
